@@ -609,6 +609,12 @@ def adversarial_docs(ck, base_docs):
             special.append({"fmt": fmt, "text": junk, "pos": ["junk"], "payload": junk[:20], "mode": "raise"})
     # after each failing CIF parse a good CIF must still parse (and nothing may have changed)
     special.append({"fmt": "cif", "text": CIF_BASE, "pos": ["valid-after-errors"], "payload": "", "mode": "valid"})
+    # operator lists that match no tabulated setting (a screw axis away from the origin), in two orders and twice:
+    # whatever the reader builds for them must not stay behind in the process
+    custom = ["'x, y, z'\n'-x+1/4, -y, z+1/2'", "'-x+1/4, -y, z+1/2'\n'x, y, z'", "'x, y, z'\n'-x+1/4, -y, z+1/2'"]
+    for k, ops in enumerate(custom):
+        special.append({"fmt": "cif", "text": CIF_BASE.replace("'x, y, z'\n'-x, -y, z+1/2'", ops).replace("'P 1'", "'P 21 shifted'"), "pos": ["custom-operators", k],
+                        "payload": ops.replace("\n", " "), "mode": "custom-ops"})
     docs += special
     if quick:
         # all formats in full, but cap the total
